@@ -184,6 +184,50 @@ def run_case(case):
     return 1, viols
 
 
+def run_removal(case):
+    """A modifier is addressed by the reaction's index, not by where the reaction stands in the list: after removing
+    any one reaction (by position, by a one-element list, by instance) the network must render exactly like a network
+    built from the remaining reactions with the same modifiers."""
+    from ..harness.render import render, reset_globals, quiet
+    from naunet.network import Network
+    from naunet.reactions.reaction import Reaction
+    from naunet.reactiontype import ReactionType
+
+    reset_globals()
+    label = f"{case['pattern']}{case['idxs']} rm={case['rate_modifier']} om={list(case['ode_modifier'])}"
+    viols = []
+    n = 0
+    for pos in range(case["n"]):
+        for how in ("position", "list", "instance"):
+            sub = dict(case, removed=pos, how=how)
+            try:
+                with quiet():
+                    net = build(case, True)
+                    victim = net.reaction_list[pos]
+                    net.remove_reaction(pos if how == "position" else [pos] if how == "list" else victim)
+                    got = render(net, "dense", TEMPL)
+                    reacs = []
+                    for j, ((r, p_, t, lo, hi), idx) in enumerate(zip(BASE[: case["n"]], case["idxs"])):
+                        if j != pos:
+                            reacs.append(Reaction(list(r), list(p_), lo, hi, 1e-10, 0.5, 10.0, ReactionType(t), idx))
+                    kw = {}
+                    if case["rate_modifier"]:
+                        kw["rate_modifier"] = {int(k): v for k, v in case["rate_modifier"].items()}
+                    if case["ode_modifier"]:
+                        kw["ode_modifier"] = case["ode_modifier"]
+                    want = render(Network(reacs, **kw), "dense", TEMPL)
+            except HarnessError:
+                raise
+            except Exception as e:
+                viols.append((f"C13:after-removal:raises:{type(e).__name__}", f"{label}, reaction {pos} removed by {how}: {e!r}", sub))
+                continue
+            n += 1
+            if got != want:
+                diff = sorted(k for k in want if want[k] != got.get(k))
+                viols.append((f"C13:after-removal:{how}", f"{label}: after remove_reaction of the reaction at position {pos} (by {how}) the network renders {diff} differently from a network built from the remaining reactions with the same modifiers", sub))
+    return n, viols
+
+
 def same_obs(a, b):
     return a[0] == b[0] and a[1].ydot == b[1].ydot and a[1].jac == b[1].jac
 
@@ -269,6 +313,15 @@ def run(ctx):
     for k, viols in ctx.pmap(run_case, cs, chunksize=4):
         n += k
         ctx.absorb(viols)
+    # removal histories: cases with at least one rate-modifier key, every position x three ways of naming the reaction
+    rc = [c for c in cs if c["rate_modifier"] and not c["ode_modifier"]]
+    if ctx.tier == "quick":
+        rc = rc[::2]
+    nrem = 0
+    for k, viols in ctx.pmap(run_removal, rc, chunksize=2):
+        nrem += k
+        ctx.absorb(viols)
+    n += nrem
     step = 9 if ctx.tier == "quick" else 3
     pc = cs[::step]
     npaths = 0
@@ -279,6 +332,7 @@ def run(ctx):
     ctx.assumptions += [
         "differential oracle: the same network is rendered with and without the modifier set; rate statements may differ exactly at reactions whose (effective) index is a key, ydot polynomials exactly by factor x product of listed abundances on the named species",
         "effective index of an unindexed network (all -1) = position, as TemplateLoader.render re-indexes it; a key matching no reaction must change nothing",
+        "removal clause: after remove_reaction (position / list / instance) of any one reaction the rendering equals that of a network built from the remaining reactions with the same modifiers",
         "entry paths: API vs Network.export -> `naunet render` vs `naunet init --render` (fresh process per case); rate text, ydot and Jacobian polynomials must be identical",
     ]
     return {
@@ -293,6 +347,10 @@ def run(ctx):
 
 
 def replay(ctx, case):
+    if "removed" in case:
+        base = {k: v for k, v in case.items() if k not in ("removed", "how")}
+        ctx.absorb(run_removal(base)[1])
+        return
     path = case.pop("path", None) if isinstance(case, dict) else None
     if path:
         n, v = run_paths(case)
